@@ -693,8 +693,58 @@ func runC02History(c *Ctx) {
 	}
 }
 
+// runC02Valueless: a primitive element may have an id or extensions and no value (`"_birthDate": {"extension": [...]}`): the
+// path to its extensions yields the extensions of the JSON rendering (google/fhir's parser marks such a primitive with an
+// internal extension, which is no element of the resource), and `.value` yields nothing — there is no value in the JSON.
+func runC02Valueless(c *Ctx) {
+	type el struct{ path, jsonKey string }
+	ext := func(u string) string { return `{"url":"` + u + `","valueString":"v"}` }
+	cases := []struct {
+		json  string
+		paths []el
+	}{
+		{`{"resourceType":"Patient","id":"p","_birthDate":{"extension":[` + ext("http://x/b") + `]},"_active":{"id":"a1"},"_gender":{"extension":[` + ext("http://x/g1") + `,` + ext("http://x/g2") + `]},"_deceasedDateTime":{"extension":[` + ext("http://x/d") + `]},"name":[{"_family":{"extension":[` + ext("http://x/f") + `]},"given":["A",null],"_given":[null,{"extension":[` + ext("http://x/n") + `]}]}],"_multipleBirthInteger":{"id":"m1"}}`,
+			[]el{{"Patient.birthDate", "http://x/b"}, {"Patient.active", ""}, {"Patient.gender", "http://x/g1 http://x/g2"}, {"Patient.deceased", "http://x/d"}, {"Patient.name.family", "http://x/f"}, {"Patient.name.given[1]", "http://x/n"}, {"Patient.multipleBirth", ""}}},
+		{`{"resourceType":"Observation","id":"o","status":"final","code":{"text":"x","_id":{"extension":[` + ext("http://x/i") + `]}},"_effectiveInstant":{"extension":[` + ext("http://x/e") + `]},"_issued":{"extension":[` + ext("http://x/s") + `]},"valueQuantity":{"_value":{"extension":[` + ext("http://x/q") + `]},"_system":{"extension":[` + ext("http://x/u") + `]}},"_valueTime":{"id":"t"}}`,
+			[]el{{"Observation.issued", "http://x/s"}, {"Observation.value.value", "http://x/q"}, {"Observation.value.system", "http://x/u"}}},
+	}
+	for _, cs := range cases {
+		var r fhir.Resource
+		_, pan, _ := safeErr(func() error { r = mustResource(cs.json); return nil })
+		if pan || r == nil {
+			c.Count("valueless-fixture-rejected")
+			continue
+		}
+		eval := func(src string) (Outcome, string) {
+			o := safeEval(func() (system.Collection, error) { return fhirpath.MustCompile(src).Evaluate([]fhir.Resource{r}) })
+			if o.Panicked || o.TimedOut || o.Err != nil {
+				return o, canonOutcome(o, nil)
+			}
+			parts := []string{}
+			for _, it := range o.Coll {
+				if s, err := system.From(it); err == nil {
+					parts = append(parts, fmt.Sprint(s))
+				} else {
+					parts = append(parts, fmt.Sprintf("%T", it))
+				}
+			}
+			return o, strings.Join(parts, " ")
+		}
+		for _, e := range cs.paths {
+			_, urls := eval(e.path + ".extension.url")
+			c.Observe("valueless "+e.path, true)
+			c.Law(urls == e.jsonKey, "C02/valueless-primitive", "a primitive without a value yields the extensions its JSON rendering has, and no value", e.path+".extension.url on "+cs.json, "["+urls+"] want ["+e.jsonKey+"]")
+			o, vals := eval(e.path + ".value")
+			c.Law(o.Err == nil && !o.Panicked && len(o.Coll) == 0, "C02/valueless-primitive", "a primitive without a value yields the extensions its JSON rendering has, and no value", e.path+".value on "+cs.json, "["+vals+"] want nothing")
+			o, _ = eval(e.path)
+			c.Law(o.Err == nil && !o.Panicked && len(o.Coll) == 1, "C02/valueless-primitive", "a primitive without a value is an element of the resource (it has an id or extensions)", e.path+" on "+cs.json, fmt.Sprint(len(o.Coll))+" items")
+		}
+	}
+}
+
 func runC02(c *Ctx) {
 	runC02History(c)
+	runC02Valueless(c)
 	c.meta.Rule = "layer A: every message of generated resources (all 146 R4 types; quick 1 per type, thorough 4) x {each element's JSON name (sampled), snake and capitalised forms, value, reference, valueUs/precision/timezone, names of other types, bogus names}, single messages and runs of 2-3 sibling messages, plus hand-built wrappers (empty ContainedResource, unset choice); layer B: every dotted path of the jsonformat rendering (capped per resource, sampled beyond) with and without root type name, random indexers at any step, foreign root type names, a bogus name appended; non-trivial = a step or path yielding at least one element; distinct by line / by (type, path)"
 	// ---- every member of Reference's oneof: a typed reference (with and without a version) reads
 	// back as Type/id[/_history/v]
